@@ -509,9 +509,14 @@ Definition lint_nameonly (c : cache) (rt : design_root) (cfg : config) (analyzed
   let c := fold_left (lint_insert rt) analyzed c in
   (c, emit cfg c).
 
-(* two libraries 1 and 3 (both not third party) with the same-named unit group 100 *)
+(* two libraries 1 and 3 (both not third party), each with a unit group named 100 *)
+Definition ex_o_unit := Ent 500 KDesignOther None RelNone (Some 500).
+Definition ex_o_c := Ent 514 (KObject false) (Some ex_o_unit) RelNone (Some 514).
+Definition ex_lib_other : library :=
+  {| lib_primary := fun n => if n =? 100 then Some [EvDecl (Some ex_o_unit); EvDecl (Some ex_o_c)] else None;
+     lib_secondaries := fun _ => [] |}.
 Definition ex_root_twin : design_root :=
-  fun l => if l =? 1 then Some ex_lib_full else if l =? 3 then Some ex_lib_full else None.
+  fun l => if l =? 1 then Some ex_lib_full else if l =? 3 then Some ex_lib_other else None.
 Definition ex_cfg_twin : config := fun l => if l =? 1 then Some false else if l =? 3 then Some false else None.
 
 (* ------------------------------------------------------------------------------------------ *)
